@@ -85,6 +85,7 @@ class Facts(object):
         self.yields = []    # (Yield/YieldFrom expr, facts)
         self.calls = []     # (Call expr, facts before the call)
         self.loop_exits = []
+        self.loop_ids = []   # line numbers of the loops being traversed (for iteration-fresh assignment facts)
         self.hyp = dict(hypothesis)  # expr_text -> polarity assumed; contradicting branches are unreachable
         stmts = body if body is not None else func.body
         start = frozenset(initial) | frozenset((k, v) for k, v in self.hyp.items())
@@ -121,8 +122,15 @@ class Facts(object):
         if not killed:
             return facts
         keep = set(('<assigned:%s>' % x, True) for x in killed)
+        # <assigned@L:x>: x was (re)bound during the current iteration of the loop at line L, on every path to here
+        for L in self.loop_ids:
+            keep |= set(('<assigned@%d:%s>' % (L, x), True) for x in killed)
         for (k, p) in facts:
             if k.startswith('<'):
+                if k.startswith('<def:') and any(k.startswith('<def:%s=' % x) for x in killed):
+                    continue
+                if k.startswith('<assigned@') and any(k.endswith(':%s>' % x) for x in killed) and int(k[10:k.index(':')]) not in self.loop_ids:
+                    continue
                 keep.add((k, p))
                 continue
             mentioned = names_in_text(k)
@@ -239,6 +247,7 @@ class Facts(object):
                 entry = self.expr(s.iter, facts)
             head = entry
             ex = {'break': TOP, 'continue': TOP}
+            self.loop_ids.append(s.lineno)
             for _ in range(6):
                 self.loop_exits.append({'break': TOP, 'continue': TOP})
                 if isinstance(s, ast.While):
@@ -254,6 +263,7 @@ class Facts(object):
                 if new_head == head:
                     break
                 head = new_head
+            self.loop_ids.pop()
             if isinstance(s, ast.While):
                 is_true_const = isinstance(s.test, ast.Constant) and bool(s.test.value)
                 after = TOP if is_true_const else self.assume(self.expr(s.test, head), s.test, False)
